@@ -41,6 +41,11 @@ type WorldOpts struct {
 	Multisig      bool
 	EqualStakes   bool // bias to equal validator stakes
 	RandomPrices  bool // commission table entries drawn independently
+	// RealisticBook: genesis limit orders as a chain can produce them - heights do not decrease
+	// with the id (the expiry pass relies on it) and every price is on the maker's side of the
+	// pool price (an order better than the pool price would have been consumed by the trade that
+	// moved the pool there)
+	RealisticBook bool
 }
 
 // DefaultOpts is the general-purpose profile.
@@ -352,12 +357,22 @@ func GenWorld(t *rapid.T, o WorldOpts) *World {
 			v0 := drawOrderVol(t, "ordV0")
 			// v1 = v0 * r1/r0 * k, k in [0.5..2]
 			k := int64(rapid.IntRange(50, 200).Draw(t, "ordK"))
+			if o.RealisticBook {
+				if od.isSale && k > 100 {
+					k = 200 - k
+				} else if !od.isSale && k < 100 {
+					k = 200 - k
+				}
+			}
 			v1 := new(big.Int).Div(new(big.Int).Mul(new(big.Int).Mul(v0, p.r1), big.NewInt(k)), new(big.Int).Mul(p.r0, big.NewInt(100)))
 			if v1.Cmp(big.NewInt(1e10)) < 0 || v0.Cmp(big.NewInt(1e10)) < 0 || v1.Cmp(MaxCoinSupply) > 0 {
 				continue
 			}
 			od.v0, od.v1 = v0, v1
 			od.height = uint64(w.InitialHeight) - uint64(rapid.IntRange(1, 30).Draw(t, "ordAge"))
+			if o.RealisticBook && len(orders) > 0 && od.height < orders[len(orders)-1].height {
+				od.height = orders[len(orders)-1].height
+			}
 			nextOrder++
 			orders = append(orders, od)
 			if od.isSale {
